@@ -97,6 +97,9 @@ func compareInt(i *SexpInt, expr Sexp) (int, error) {
 	case *SexpInt:
 		return cmpInt64(i.Val, e.Val), nil
 	case *SexpFloat:
+		if math.IsNaN(e.Val) {
+			return 2, nil
+		}
 		return signumFloat(float64(i.Val) - e.Val), nil
 	case *SexpChar:
 		return cmpInt64(i.Val, int64(e.Val)), nil
@@ -122,6 +125,9 @@ func compareChar(c *SexpChar, expr Sexp) (int, error) {
 	case *SexpInt:
 		return cmpInt64(int64(c.Val), e.Val), nil
 	case *SexpFloat:
+		if math.IsNaN(e.Val) {
+			return 2, nil
+		}
 		return signumFloat(float64(c.Val) - e.Val), nil
 	case *SexpChar:
 		return cmpInt64(int64(c.Val), int64(e.Val)), nil
